@@ -94,7 +94,7 @@ Print Assumptions C05_api_status_is_cache_status_or_old.
    (syncJob with an admitted / absent / pending PodGroup, first sync of a job without a phase,
    killPods on the job, a task or a pod), the spec, the pods -- the counters on the API server
    partition exactly the pods there: terminating = being deleted, all others by phase.
-   [fresh_all]: the controller sees the API server's pods / status / spec, task names and pod
+   [fresh_all]: the controller sees the API server's pods and spec (not necessarily its status), task names and pod
    names are unique, every pod belongs to a task of the spec. *)
 Theorem C05_counters_partition : forall w r w' e wr,
   step_req w r [] = (w', e, wr) -> wr = true -> fresh_all w ->
@@ -262,16 +262,19 @@ Print Assumptions C05_maxretry_fails_fire_written.
 
 (* two writers (the worker and the goroutine of an expired delayed action) are serialised in the model;
    what arbitrates them in a cluster is the API server's resourceVersion check on UpdateStatus.  The
-   loser of that check (every UpdateStatus of the execution refused) leaves the API server's status
-   untouched and reports no written status: for every action, request and remaining fault set *)
+   loser of that check -- an execution whose status update is refused (an Execute attempts its status
+   update number 1 only after number 0 went through, so "index 0 refused" = "every status update it
+   attempts is refused") -- leaves the API server's status untouched and reports no written status: for
+   every action, request, view and other faults.  (The first version assumed [forall n, fails_status F n
+   = true], which no finite fault list satisfies: second audit N1.) *)
 Theorem C05_refused_status_writer : forall w a r F w' e wr,
-  execute w a r F = (w', e, wr) -> (forall n, fails_status F n = true) ->
+  execute w a r F = (w', e, wr) -> fails_status F 0 = true ->
   w_st w' = w_st w /\ wr = false.
 Proof. exact refused_status_writer. Qed.
 Print Assumptions C05_refused_status_writer.
 
 Theorem C05_refused_status_writer_req : forall w r F w' e wr,
-  step_req w r F = (w', e, wr) -> (forall n, fails_status F n = true) -> w_st w' = w_st w /\ wr = false.
+  step_req w r F = (w', e, wr) -> fails_status F 0 = true -> w_st w' = w_st w /\ wr = false.
 Proof. exact refused_status_writer_req. Qed.
 Print Assumptions C05_refused_status_writer_req.
 
@@ -290,10 +293,8 @@ Print Assumptions C05_partition_ok_sound.
    the phase the cache showed before, on [giveup_world]: the job object of then (stale_view: after a first
    sync whose initJobStatus wrote) and the pod view the failed Execute left in its JobInfo clone
    (view_after: syncJob removes every pod it matched from the clone's maps). ---- *)
-Theorem C05_giveup_is_terminate : forall w r F w' e wr,
-  step_reqb w r F = (w', e, wr) -> reqb_result w r F w' e wr.
-Proof. exact step_reqb_cases. Qed.
-Print Assumptions C05_giveup_is_terminate.
+(* (that decomposition is lemma step_reqb_cases of C05/Lemmas.v: an unfolding of the definition, not counted as a
+   property theorem -- second audit N7) *)
 
 (* consequently every lifecycle clause holds for the whole step, give-up included, for every requeue
    budget, requeue count and fault plan of either execution *)
@@ -348,6 +349,33 @@ Theorem C05_counters_partition_reqb : forall w r w' wr,
   (st_cnt (w_st w'), st_term (w_st w')) = tally (w_pods w').
 Proof. exact counters_partition_reqb. Qed.
 Print Assumptions C05_counters_partition_reqb.
+
+(* ---- where the premise [fresh_all] of the counters theorems comes from.  fresh_all w: the controller's pod view
+   and cached spec equal the API server's, task and pod names are unique, every pod belongs to a task of
+   the spec; the cached STATUS may differ (after a failed job-level kill its version is ahead).  It holds
+   for every initial world of a history and right after a delivery of the job and the pods; there is no
+   theorem that unique names / ownership are preserved along a history (they are hypotheses on the world
+   at the delivery), and no history-level counters theorem. ---- *)
+Theorem C05_fresh_all_init : forall m q sp st pods pg,
+  NoDup (map t_name (s_tasks sp)) -> NoDup (pod_ids pods) -> owned sp pods ->
+  fresh_all (init_world_m m q sp st pods pg).
+Proof. exact fresh_all_init. Qed.
+Print Assumptions C05_fresh_all_init.
+
+Theorem C05_fresh_all_after_deliveries : forall w,
+  NoDup (map t_name (s_tasks (w_spec w))) -> NoDup (pod_ids (w_pods w)) -> owned (w_spec w) (w_pods w) ->
+  c_dirty (v_ctl w) = true \/ c_job (v_ctl w) = false \/ v_spec w = w_spec w ->
+  fresh_all (run w [OSyncJob; OSyncPods]).
+Proof. exact fresh_all_after_deliveries. Qed.
+Print Assumptions C05_fresh_all_after_deliveries.
+
+Theorem C05_counters_partition_after_deliveries : forall w r w' e wr,
+  NoDup (map t_name (s_tasks (w_spec w))) -> NoDup (pod_ids (w_pods w)) -> owned (w_spec w) (w_pods w) ->
+  c_dirty (v_ctl w) = true \/ c_job (v_ctl w) = false \/ v_spec w = w_spec w ->
+  step_req (run w [OSyncJob; OSyncPods]) r [] = (w', e, wr) -> wr = true ->
+  (st_cnt (w_st w'), st_term (w_st w')) = tally (w_pods w').
+Proof. exact counters_partition_after_deliveries. Qed.
+Print Assumptions C05_counters_partition_after_deliveries.
 
 Example C05_fixed_on_pgpending_witness :
   exists w', step_req pgpending_world sync_req [] = (w', false, true) /\
@@ -453,3 +481,26 @@ Example C05_giveup_consumed_view :
              q_gave (c_rq (v_ctl w')) = true /\ st_phase (w_st w') = PhTerminating /\
              st_cnt (w_st w') = c0 /\ st_term (w_st w') = 0 /\ w_pods w' = pods /\ w_pg w' = None.
 Proof. exact giveup_consumed_view_example. Qed.
+
+
+Example C05_nonvacuous_refused_status_writer :
+  let sp := mkSpec [mkTask 1 1 (Some 1) [] None] 1 None 3 [] in
+  let w := init_world sp (mkStatus PhRunning 0 0 1 c0 0 [] false false) [mkPod 1 0 PRunning false false] (Some PgRunning) in
+  fails_status [FStatus 0] 0 = true /\
+  (exists w', step_req w (mkReq ECommandIssued (Some ARestartJob) None None 0 0 1) [FStatus 0] = (w', true, false) /\
+              w_st w' = w_st w /\ w_pods w' = [mkPod 1 0 PRunning true true]) /\
+  (exists w', step_req w (mkReq EOutOfSync None None None 0 0 1) [FStatus 0] = (w', true, false) /\ w_st w' = w_st w) /\
+  (exists w', step_req w (mkReq EOutOfSync None None None 0 0 1) [] = (w', false, true) /\ w_st w' <> w_st w).
+Proof. exact refused_status_writer_example. Qed.
+
+(* the cached version ahead of the API server's after a failed RestartJob, deliveries, and the retried
+   restart: the premise holds (status equality is not part of it) and the counters partition *)
+Example C05_nonvacuous_fresh_all_version_ahead :
+  let sp := mkSpec [mkTask 1 2 (Some 2) [] None] 2 None 3 [] in
+  let w := init_world sp (mkStatus PhRunning 0 0 2 (mkC 0 2 0 0 0) 0 [] false false)
+             [mkPod 1 0 PRunning false false; mkPod 1 1 PRunning false false] (Some PgRunning) in
+  let rq := mkReq ECommandIssued (Some ARestartJob) None None 0 0 1 in
+  let w1 := run w [OReq rq [FDelete 1 0]; OSyncJob; OSyncPods; OSyncPg] in
+  v_st w1 <> w_st w1 /\ fresh_all w1 /\
+  exists w2, step_req w1 rq [] = (w2, false, true) /\ (st_cnt (w_st w2), st_term (w_st w2)) = tally (w_pods w2).
+Proof. exact fresh_all_version_ahead. Qed.
